@@ -232,13 +232,18 @@ class Select(Factory, Container):
         return f"<Select cut={self.cut.name}>"
 
     def __eq__(self, other):
-        return isinstance(other, Select) and numeq(self.entries, other.entries) and self.cut == other.cut
+        return (
+            isinstance(other, Select)
+            and numeq(self.entries, other.entries)
+            and self.quantity == other.quantity
+            and self.cut == other.cut
+        )
 
     def __ne__(self, other):
         return not self == other
 
     def __hash__(self):
-        return hash((self.entries, self.cut))
+        return hash((self.entries, self.quantity, self.cut))
 
 
 # extra properties: number of dimensions and datatypes of sub-hists
